@@ -4,6 +4,8 @@ switches the C12 development from the refutation of the negative-binomial pair t
   - coq/project.d/C12.list : Proofs/C12NegBinRefuted.v -> Proofs/C12NegBin.v
   - coq/theories/Props/C12.v : import Proofs.C12NegBin, and the block between the BEGIN/END markers becomes
     Theorem C12_negative_binomial_deriv (exact negative_binomial_deriv)
+  - coq/theories/Proofs/C12Setup.v and the "A-34 setup" block of Props/C12.v: the negative-binomial row of the fg_setup table
+    becomes the full statement (every positive data value, every model value >= 0)
 Usage: python3 tools/props/c12_switch_a34.py [/verif]"""
 import os
 import re
@@ -25,7 +27,28 @@ Print Assumptions C12_negative_binomial_deriv.
 s2, n = re.subn(r"\(\* ---- negative binomial: BEGIN block.*?\(\* ---- END block -+ \*\)", lambda m: new_block, s, flags=re.S)
 if n != 1:
     sys.exit("BEGIN/END block not found in Props/C12.v")
+setup_block_props = '''(* ---- A-34 setup: BEGIN block (switched) ---- *)
+(* negative binomial: the pair the table selects is consistent on the whole domain (A-34 repaired) *)
+Theorem C12_setup_negative_binomial : forall p x m, above_bound NegativeBinomial m ->
+  is_derive (fun m => loss NegativeBinomial p x m) m (grad NegativeBinomial p x m).
+Proof. exact setup_negative_binomial. Qed.
+Print Assumptions C12_setup_negative_binomial.
+(* ---- END A-34 setup block ---- *)'''
+s2, n = re.subn(r"\(\* ---- A-34 setup: BEGIN block.*?\(\* ---- END A-34 setup block ---- \*\)", lambda m: setup_block_props, s2, flags=re.S)
+if n != 1:
+    sys.exit("A-34 setup block not found in Props/C12.v")
 open(pv, "w").write(s2)
+ps = os.path.join(root, "coq", "theories", "Proofs", "C12Setup.v")
+s = open(ps).read().replace("Proofs.C12NegBinRefuted", "Proofs.C12NegBin")
+setup_block = '''(* ---- A-34 setup: BEGIN block (switched: fixes/C12-A-34.diff applied) ---- *)
+Theorem setup_negative_binomial : forall p x m, above_bound NegativeBinomial m ->
+  is_derive (fun m => loss NegativeBinomial p x m) m (grad NegativeBinomial p x m).
+Proof. intros p x m Hm. cbn in Hm. now apply negative_binomial_deriv. Qed.
+(* ---- END A-34 setup block ---- *)'''
+s2, n = re.subn(r"\(\* ---- A-34 setup: BEGIN block.*?\(\* ---- END A-34 setup block ---- \*\)", lambda m: setup_block, s, flags=re.S)
+if n != 1:
+    sys.exit("A-34 setup block not found in Proofs/C12Setup.v")
+open(ps, "w").write(s2)
 for ext in (".vo", ".vos", ".vok", ".glob"):
     p = os.path.join(root, "coq", "theories", "Proofs", "C12NegBinRefuted" + ext)
     if os.path.exists(p):
